@@ -64,8 +64,8 @@ def _autosize_columns(df: pd.DataFrame, ws, start_col: int = 1, header_row: int 
     """Best-effort column width:  max(len(header), max len cell)."""
     for i, col in enumerate(df.columns, start=start_col):
         max_len = len(str(col))
-        for val in df[col].astype(str):
-            max_len = max(max_len, len(val))
+        for val in df[col]:
+            max_len = max(max_len, len(str(val)))
         ws.column_dimensions[ws.cell(row=header_row, column=i).column_letter].width = min(
             max_len + 2, 40
         )
